@@ -16,6 +16,7 @@ import (
 	"sort"
 	"strings"
 	"sync"
+	"sync/atomic"
 	"syscall"
 	"testing"
 	"time"
@@ -108,30 +109,133 @@ type stOp struct {
 	Dir2 int    `json:"d2,omitempty"`
 	Name string `json:"n,omitempty"`
 	Nam2 string `json:"n2,omitempty"`
+	// Fixed names one of the fixed directories a(1), b(2), c(3) for the
+	// kinds that move them or rename something onto them.
+	Fixed int `json:"f,omitempty"`
 }
 
 var stNames = []string{"x", "y", "sub"}
 
+// stFixedNames[i] is the name under which fixed directory i was created and
+// which it keeps wherever it is moved.
+var stFixedNames = []string{"", "a", "b", "c"}
+
+var stKinds = []string{
+	"rename", "rename", "rename", "mkdir", "remove", "lookup", "readdir", "readdirAttrs", "readdirAttrs", "subFile", "enter", "removeAllChildren", "bulkRemove", "removeAll", "createChildren", "lookupAll", "filter", "openCreate",
+	// added by the strengthening round:
+	"moveFixed", "moveFixed", "moveFixed", "renameOntoFixed", "link", "link", "mknod", "leafIO", "leafIO", "openWriteUnlink", "seedLazy", "seedLazy", "subList", "subLookup", "removeLazy",
+}
+
 func drawStOps(rt *rapid.T, n, nDirs int) []stOp {
-	kinds := []string{"rename", "rename", "rename", "mkdir", "remove", "lookup", "readdir", "readdirAttrs", "readdirAttrs", "subFile", "enter", "removeAllChildren", "bulkRemove", "removeAll", "createChildren", "lookupAll", "filter", "openCreate"}
 	ops := make([]stOp, 0, n)
 	for i := 0; i < n; i++ {
 		ops = append(ops, stOp{
-			Kind: rapid.SampledFrom(kinds).Draw(rt, "kind"),
-			Dir:  rapid.IntRange(0, nDirs-1).Draw(rt, "dir"),
-			Dir2: rapid.IntRange(0, nDirs-1).Draw(rt, "dir2"),
-			Name: rapid.SampledFrom(stNames).Draw(rt, "name"),
-			Nam2: rapid.SampledFrom(stNames).Draw(rt, "name2"),
+			Kind:  rapid.SampledFrom(stKinds).Draw(rt, "kind"),
+			Dir:   rapid.IntRange(0, nDirs-1).Draw(rt, "dir"),
+			Dir2:  rapid.IntRange(0, nDirs-1).Draw(rt, "dir2"),
+			Name:  rapid.SampledFrom(stNames).Draw(rt, "name"),
+			Nam2:  rapid.SampledFrom(stNames).Draw(rt, "name2"),
+			Fixed: rapid.IntRange(1, 3).Draw(rt, "fixed"),
 		})
 	}
 	return ops
+}
+
+// stLazySpec describes a lazily populated directory seeded into the shared
+// tree: its fetcher fails the first FailFirst times it is asked, then yields
+// Files regular files, one symlink and Subdirs lazy subdirectories (which in
+// turn fail SubFailFirst times and then yield one file).
+type stLazySpec struct {
+	FailFirst    int `json:"fail"`
+	Files        int `json:"files"`
+	Subdirs      int `json:"subdirs"`
+	SubFailFirst int `json:"subfail"`
+}
+
+var errStFetch = fmt.Errorf("vfsdir stress: injected InitialContentsFetcher failure")
+
+// stFetcher is a thread-safe InitialContentsFetcher. FetchContents is called
+// with the directory's lock held; the only shared state is atomic.
+type stFetcher struct {
+	t         *stTree
+	spec      stLazySpec
+	failsLeft atomic.Int32
+	successes atomic.Int32
+}
+
+func newStFetcher(t *stTree, spec stLazySpec) *stFetcher {
+	f := &stFetcher{t: t, spec: spec}
+	f.failsLeft.Store(int32(spec.FailFirst))
+	return f
+}
+
+func (f *stFetcher) VirtualApply(data any) bool { return false }
+
+func (f *stFetcher) FetchContents(fileReadMonitorFactory virtual.FileReadMonitorFactory) (map[path.Component]virtual.InitialChild, error) {
+	if f.failsLeft.Add(-1) >= 0 {
+		f.t.count("lazy_fetch_failed")
+		return nil, errStFetch
+	}
+	if f.successes.Add(1) > 1 {
+		panic("C13: InitialContentsFetcher.FetchContents was called again after it had succeeded")
+	}
+	f.t.count("lazy_fetch_succeeded")
+	out := map[path.Component]virtual.InitialChild{}
+	for i := 0; i < f.spec.Files; i++ {
+		if leaf, err := f.t.files.NewFile(pool.ZeroHoleSource, false, 0, 0); err == nil {
+			f.t.noteLeaf(leaf)
+			out[path.MustNewComponent(stNames[i%len(stNames)])] = virtual.InitialChild{}.FromLeaf(leaf)
+		}
+	}
+	if leaf, err := f.t.links.LookupSymlink(path.UNIXFormat.NewParser("lazy-target")); err == nil {
+		out[path.MustNewComponent("ln")] = virtual.InitialChild{}.FromLeaf(leaf)
+	}
+	for i := 0; i < f.spec.Subdirs; i++ {
+		out[path.MustNewComponent(fmt.Sprintf("lazy%d", i))] = virtual.InitialChild{}.FromDirectory(
+			newStFetcher(f.t, stLazySpec{FailFirst: f.spec.SubFailFirst, Files: 1}))
+	}
+	return out, nil
 }
 
 type stTree struct {
 	root  virtual.PrepopulatedDirectory
 	dirs  []virtual.PrepopulatedDirectory
 	files virtual.FileAllocator
+	links virtual.SymlinkFactory
 	nfs   *virtual.NFSStatefulHandleAllocator
+
+	// renameMu plays Linux's s_vfs_rename_mutex: moves of the fixed
+	// directories a, b, c to another parent are serialised, and checked
+	// against the tree (a directory is never moved into its own subtree)
+	// while it is held. parent[i] is the index of the fixed directory that
+	// fixed directory i was last moved into; chains of parents only ever
+	// over-approximate the real ancestors (removals cut the real chain), so
+	// a move that passes the check cannot create a cycle. Directories other
+	// than the fixed ones never contain a fixed one (nothing is ever moved
+	// INTO them) and so can be renamed freely between fixed directories.
+	renameMu sync.Mutex
+	parent   [4]int
+
+	mu     sync.Mutex
+	leaves []virtual.Leaf // every pool-backed file the harness got hold of
+	stats  map[string]int
+	lazy   []stLazySpec // specs handed out to seedLazy ops, in generated order
+	lazyAt atomic.Int32
+}
+
+func (t *stTree) count(what string) {
+	t.mu.Lock()
+	if t.stats == nil {
+		t.stats = map[string]int{}
+	}
+	t.stats[what]++
+	t.mu.Unlock()
+}
+
+func (t *stTree) noteLeaf(l virtual.Leaf) {
+	t.mu.Lock()
+	t.leaves = append(t.leaves, l)
+	t.mu.Unlock()
 }
 
 func newStTree(handles string) *stTree {
@@ -150,15 +254,46 @@ func newStTree(handles string) *stTree {
 	logger := &stLogger{}
 	t.files = virtual.NewHandleAllocatingFileAllocator(
 		virtual.NewPoolBackedFileAllocator(&stSafePool{}, logger, setter, virtual.NoNamedAttributesFactory), allocator)
-	links := virtual.NewHandleAllocatingSymlinkFactory(virtual.NewBaseSymlinkFactory(setter), allocator.New(), path.UNIXFormat)
-	t.root = virtual.NewInMemoryPrepopulatedDirectory(t.files, links, logger, allocator, sort.Sort,
+	t.links = virtual.NewHandleAllocatingSymlinkFactory(virtual.NewBaseSymlinkFactory(setter), allocator.New(), path.UNIXFormat)
+	t.root = virtual.NewInMemoryPrepopulatedDirectory(t.files, t.links, logger, allocator, sort.Sort,
 		func(string) bool { return false }, &vdClock{now: time.Unix(1000, 0)}, virtual.CaseSensitiveComponentNormalizer, setter, virtual.NoNamedAttributesFactory)
 	// root, root/a, root/b, root/a/c
 	a, _ := t.root.CreateAndEnterPrepopulatedDirectory(path.MustNewComponent("a"))
 	b, _ := t.root.CreateAndEnterPrepopulatedDirectory(path.MustNewComponent("b"))
 	c, _ := a.CreateAndEnterPrepopulatedDirectory(path.MustNewComponent("c"))
 	t.dirs = []virtual.PrepopulatedDirectory{t.root, a, b, c}
+	t.parent = [4]int{-1, 0, 0, 1}
 	return t
+}
+
+// seedLazy attaches a lazily populated directory under the given name,
+// replacing whatever is there (CreateChildren with overwrite).
+func (t *stTree) seedLazy(d virtual.PrepopulatedDirectory, name path.Component, spec stLazySpec) {
+	if d.CreateChildren(map[path.Component]virtual.InitialChild{name: virtual.InitialChild{}.FromDirectory(newStFetcher(t, spec))}, true) == nil {
+		t.count("lazy_directory_seeded")
+	}
+}
+
+// mayMoveFixed reports whether fixed directory n may be moved into fixed
+// directory target: not if n is target or (as far as the harness knows) one
+// of its ancestors. Must be called with renameMu held.
+func (t *stTree) mayMoveFixed(n, target int) bool {
+	for x, steps := target, 0; x >= 0; x, steps = t.parent[x], steps+1 {
+		if x == n || steps > 4 {
+			return false
+		}
+	}
+	return true
+}
+
+// childDir resolves a child directory of d by name without initialising the
+// child.
+func stChildDir(d virtual.PrepopulatedDirectory, name path.Component) virtual.PrepopulatedDirectory {
+	if child, err := d.LookupChild(name); err == nil {
+		sub, _ := child.GetPair()
+		return sub
+	}
+	return nil
 }
 
 func (t *stTree) apply(ctx context.Context, o stOp) {
@@ -183,12 +318,15 @@ func (t *stTree) apply(ctx context.Context, o stOp) {
 		d.VirtualReadDir(ctx, 0, virtual.AttributesMaskInodeNumber, stReporter{})
 	case "readdirAttrs":
 		// A listing that needs every child directory's lock (change ID);
-		// within one call no name may be reported twice and cookies must
-		// strictly increase (C13), whatever other threads do meanwhile.
+		// within one call cookies must strictly increase (C13: no entry is
+		// reported twice), whatever other threads do meanwhile.
 		r := &stCollectingReporter{}
 		d.VirtualReadDir(ctx, 0, virtual.AttributesMaskInodeNumber|virtual.AttributesMaskChangeID|virtual.AttributesMaskLastDataModificationTime, r)
 		if r.problem != "" {
 			panic("C13: " + r.problem)
+		}
+		if r.renamed > 0 {
+			t.count("listing_saw_a_name_replaced_meanwhile")
 		}
 	case "subFile":
 		// Keeps a child directory's lock busy for a moment: create a file
@@ -196,6 +334,7 @@ func (t *stTree) apply(ctx context.Context, o stOp) {
 		if child, err := d.LookupChild(name); err == nil {
 			if sub, _ := child.GetPair(); sub != nil {
 				if leaf, err := t.files.NewFile(pool.ZeroHoleSource, false, 0, 0); err == nil {
+					t.noteLeaf(leaf)
 					if sub.CreateChildren(map[path.Component]virtual.InitialChild{name2: virtual.InitialChild{}.FromLeaf(leaf)}, true) != nil {
 						leaf.Unlink()
 					}
@@ -213,6 +352,7 @@ func (t *stTree) apply(ctx context.Context, o stOp) {
 	case "createChildren":
 		leaf, err := t.files.NewFile(pool.ZeroHoleSource, false, 0, 0)
 		if err == nil {
+			t.noteLeaf(leaf)
 			if d.CreateChildren(map[path.Component]virtual.InitialChild{name: virtual.InitialChild{}.FromLeaf(leaf)}, true) != nil {
 				leaf.Unlink()
 			}
@@ -232,26 +372,141 @@ func (t *stTree) apply(ctx context.Context, o stOp) {
 			leaf.VirtualWrite(ctx, []byte("hi"), 0)
 			leaf.VirtualClose(virtual.ShareMaskWrite)
 		}
+
+	// ---- kinds added by the strengthening round.
+	case "moveFixed":
+		// Move fixed directory o.Fixed from where it was last put into
+		// fixed directory o.Dir2, keeping its name; the way a kernel would
+		// (rename mutex, ancestor check). Both directions between any two
+		// directories occur: the classic lock-order inversion.
+		fixed := path.MustNewComponent(stFixedNames[o.Fixed])
+		t.renameMu.Lock()
+		if !t.mayMoveFixed(o.Fixed, o.Dir2) {
+			t.renameMu.Unlock()
+			t.count("excluded:move of a fixed directory into its own subtree")
+			return
+		}
+		src := t.parent[o.Fixed]
+		if _, _, s := t.dirs[src].VirtualRename(ctx, fixed, d2, fixed); s == virtual.StatusOK {
+			t.parent[o.Fixed] = o.Dir2
+			if src != o.Dir2 {
+				t.count("fixed_directory_moved")
+			}
+		}
+		t.renameMu.Unlock()
+	case "renameOntoFixed":
+		// Rename an ordinary entry onto the NAME of a fixed directory in
+		// d2: replaces that directory if it is there and empty (three
+		// directory locks, one of them in use by other threads). What is
+		// moved is never a fixed directory, so no cycle can arise.
+		if _, _, s := d.VirtualRename(ctx, name, d2, path.MustNewComponent(stFixedNames[o.Fixed])); s == virtual.StatusOK {
+			t.count("renamed_onto_fixed_name")
+		}
+	case "link":
+		if child, s := d.VirtualLookup(ctx, name, virtual.AttributesMaskInodeNumber, &attr); s == virtual.StatusOK {
+			if _, leaf := child.GetPair(); leaf != nil {
+				var out virtual.Attributes
+				if _, s := d2.VirtualLink(ctx, name2, leaf, virtual.AttributesMaskLinkCount, &out); s == virtual.StatusOK {
+					t.count("linked")
+				}
+			}
+		}
+	case "mknod":
+		attrs := &virtual.Attributes{}
+		switch o.Nam2 {
+		case "x":
+			attrs.SetFileType(filesystem.FileTypeSymlink).SetSymlinkTarget(path.UNIXFormat.NewParser("t-" + o.Name))
+		case "y":
+			attrs.SetFileType(filesystem.FileTypeFIFO)
+		default:
+			attrs.SetFileType(filesystem.FileTypeSocket)
+		}
+		d.VirtualMknod(ctx, name, attrs, virtual.AttributesMaskInodeNumber, &attr)
+	case "leafIO":
+		// Open a file (creating it if need be) and use it while other
+		// threads may unlink it, truncate it or write to it.
+		share := virtual.ShareMaskRead | virtual.ShareMaskWrite
+		leaf, _, _, s := d.VirtualOpenChild(ctx, name, share, (&virtual.Attributes{}).SetPermissions(virtual.PermissionsRead|virtual.PermissionsWrite), &virtual.OpenExistingOptions{Truncate: o.Nam2 == "x"}, virtual.AttributesMaskSizeBytes, &attr)
+		if s == virtual.StatusOK {
+			t.noteLeaf(leaf)
+			t.count("file_opened")
+			buf := make([]byte, 8)
+			leaf.VirtualWrite(ctx, []byte("data-"+o.Name), uint64(len(o.Nam2)))
+			leaf.VirtualRead(ctx, buf, 0)
+			var out virtual.Attributes
+			leaf.VirtualSetAttributes(ctx, (&virtual.Attributes{}).SetSizeBytes(uint64(o.Dir2)), virtual.AttributesMaskSizeBytes, &out)
+			leaf.VirtualAllocate(ctx, 2, 6)
+			leaf.VirtualSeek(ctx, 0, filesystem.Data)
+			leaf.VirtualGetAttributes(ctx, virtual.AttributesMaskSizeBytes|virtual.AttributesMaskLinkCount|virtual.AttributesMaskChangeID, &out)
+			leaf.VirtualClose(share)
+		}
+	case "openWriteUnlink":
+		leaf, _, _, s := d.VirtualOpenChild(ctx, name, virtual.ShareMaskWrite, (&virtual.Attributes{}).SetPermissions(virtual.PermissionsRead|virtual.PermissionsWrite), &virtual.OpenExistingOptions{}, 0, &attr)
+		if s == virtual.StatusOK {
+			t.noteLeaf(leaf)
+			leaf.VirtualWrite(ctx, []byte("bye"), 0)
+			d.VirtualRemove(ctx, name, false, true)
+			// Still open: the file outlives its last name.
+			leaf.VirtualWrite(ctx, []byte("!"), 3)
+			leaf.VirtualClose(virtual.ShareMaskWrite)
+		}
+	case "seedLazy":
+		i := int(t.lazyAt.Add(1)) - 1
+		if len(t.lazy) > 0 {
+			t.seedLazy(d, name, t.lazy[i%len(t.lazy)])
+		}
+	case "subList":
+		// List a child directory (initialises it if it is lazy; its fetcher
+		// may fail) with attributes that need the grandchildren's locks.
+		if sub := stChildDir(d, name); sub != nil {
+			r := &stCollectingReporter{}
+			sub.VirtualReadDir(ctx, 0, virtual.AttributesMaskInodeNumber|virtual.AttributesMaskChangeID, r)
+			if r.problem != "" {
+				panic("C13: " + r.problem)
+			}
+		}
+	case "subLookup":
+		if sub := stChildDir(d, name); sub != nil {
+			sub.VirtualLookup(ctx, path.MustNewComponent("lazy0"), virtual.AttributesMaskChangeID, &attr)
+			if leaf, _, _, s := sub.VirtualOpenChild(ctx, name2, virtual.ShareMaskRead, nil, &virtual.OpenExistingOptions{}, 0, &attr); s == virtual.StatusOK {
+				leaf.VirtualClose(virtual.ShareMaskRead)
+			}
+		}
+	case "removeLazy":
+		// rmdir of a child: has to initialise a lazy child (fetcher may
+		// fail) while holding the parent's lock.
+		d.VirtualRemove(ctx, name, true, false)
 	}
 }
 
 type stCollectingReporter struct {
-	names      map[string]bool
+	names      map[string]uint64 // name -> cookie it was reported with
 	lastCookie uint64
 	problem    string
+	// renamed: names that were reported more than once, i.e. (cookies being
+	// strictly increasing) two different entries that carried one name at
+	// different moments of the call.
+	renamed int
 }
 
 func (r *stCollectingReporter) ReportEntry(nextCookie uint64, name path.Component, child virtual.DirectoryChild, attributes *virtual.Attributes) bool {
 	if r.names == nil {
-		r.names = map[string]bool{}
+		r.names = map[string]uint64{}
 	}
-	if r.names[name.String()] {
-		r.problem = fmt.Sprintf("one VirtualReadDir call reported entry %q twice", name.String())
-	}
+	// A directory entry keeps its cookie for as long as it is attached, so
+	// "the same entry twice" shows as a cookie that does not increase. A
+	// NAME may legitimately come twice: the call drops the directory lock
+	// while it waits for a child directory's lock, and another thread may
+	// remove the entry that was already reported and attach a new one under
+	// the same name (higher cookie). The property only speaks of entries
+	// that existed throughout the listing.
 	if nextCookie <= r.lastCookie {
-		r.problem = fmt.Sprintf("one VirtualReadDir call reported cookie %d after %d", nextCookie, r.lastCookie)
+		r.problem = fmt.Sprintf("one VirtualReadDir call reported cookie %d (entry %q) after cookie %d", nextCookie, name.String(), r.lastCookie)
 	}
-	r.names[name.String()] = true
+	if _, again := r.names[name.String()]; again {
+		r.renamed++
+	}
+	r.names[name.String()] = nextCookie
 	r.lastCookie = nextCookie
 	return true
 }
@@ -288,32 +543,74 @@ func allGoroutineStacks() string {
 	}
 }
 
+// stWorkerStates classifies the goroutines of a dump that are executing
+// stTree.apply: parked waiting for a sync.Mutex / sync.RWMutex, or anything
+// else (running, runnable, ...).
+func stWorkerStates(dump string) (parked, other int) {
+	for _, block := range strings.Split(dump, "\n\n") {
+		if !strings.Contains(block, "vfsdir.(*stTree).apply") {
+			continue
+		}
+		header, _, _ := strings.Cut(block, "\n")
+		onLock := strings.Contains(block, "sync.(*Mutex).Lock") || strings.Contains(block, "sync.(*RWMutex).Lock") || strings.Contains(block, "sync.(*RWMutex).RLock")
+		if onLock && !strings.Contains(header, "[running") && !strings.Contains(header, "[runnable") {
+			parked++
+		} else {
+			other++
+		}
+	}
+	return
+}
+
+type stCase struct {
+	Handles string       `json:"handles"`
+	Lazy    []stLazySpec `json:"lazy,omitempty"`
+	Seeded  []stOp       `json:"seeded,omitempty"` // lazy directories attached before the threads start
+	Scripts [][]stOp     `json:"scripts"`
+}
+
 func TestC14DirectoryConcurrentStress(t *testing.T) {
 	if runtime.GOMAXPROCS(0) < 4 {
 		runtime.GOMAXPROCS(4)
 	}
-	rec := simkit.NewRecorder(t, "C14", "directory-concurrent-stress", "2-4 real goroutines each run a generated list of 10-40 operations (renames in both directions between sibling directories, mkdir, remove, lookup, readdir, CreateAndEnterPrepopulatedDirectory, RemoveAllChildren, Remove, RemoveAll, CreateChildren(overwrite), LookupAllChildren, FilterChildren with removal, create-and-write) on one shared tree root/{a,b,a/c} of the real in-memory directory (NFS or FUSE handle allocator); interleavings are the Go scheduler's, not generated. Oracle: every batch terminates (a batch stuck for 60 s whose goroutine dump taken twice 2 s apart shows the same goroutines parked in sync.(*Mutex).Lock inside the repository's code is a confirmed deadlock = violation; any other time-out is inconclusive), afterwards every directory lock and the NFS handle pool lock are free and LookupAllChildren / ReadDir agree on the root tree. Renames that could move a directory into its own subtree are excluded (counted). Non-trivial: >=2 threads issued renames in opposite directions between the same two directories, or a removal of a directory another thread used; distinct by script hash")
+	rec := simkit.NewRecorder(t, "C14", "directory-concurrent-stress", "2-4 real goroutines each run a generated list of 10-40 operations on one shared tree root/{a,b,a/c} of the real in-memory directory (NFS or FUSE handle allocator): renames in both directions between the fixed directories, moves of the fixed directories a/b/c themselves into one another (serialised and cycle-checked the way the Linux VFS does), renames onto the name of a fixed directory (three locks), mkdir, remove, lookup, readdir (also with attributes that need every child's lock), CreateAndEnterPrepopulatedDirectory, RemoveAllChildren, Remove, RemoveAll, CreateChildren(overwrite), LookupAllChildren, FilterChildren with removal, VirtualLink, VirtualMknod, create/open + write/read/truncate/allocate/seek + unlink of files that other threads use, and lazily populated directories (seeded before and during the batch) whose InitialContentsFetcher fails its first 0-2 calls; interleavings are the Go scheduler's, not generated. Oracle: every batch terminates (a batch stuck for 60 s in which no thread completed an operation between two goroutine dumps 2 s apart and every unfinished thread is parked in sync.(*Mutex).Lock / sync.(*RWMutex) is a confirmed deadlock or leaked lock = violation; any other time-out, in particular threads that are still runnable, is inconclusive because progress cannot be ruled out), no call panics, one VirtualReadDir call never reports a name twice, afterwards every directory lock, every file lock and the NFS handle pool lock are free and LookupAllChildren / ReadDir agree on the whole tree. Built with the race detector when the check entry says race=True: a data race between two calls is reported by the runtime and fails the test. Renames that could move a directory into its own subtree are excluded (counted). Non-trivial: >=2 threads issued renames in opposite directions between the same two directories, or a removal of a directory another thread used, or >=2 threads moved fixed directories; distinct by script hash")
 	ctx := context.Background()
 	rapid.Check(t, func(rt *rapid.T) {
-		handles := rapid.SampledFrom([]string{"nfs", "fuse"}).Draw(rt, "handles")
+		sc := stCase{Handles: rapid.SampledFrom([]string{"nfs", "fuse"}).Draw(rt, "handles")}
 		nThreads := rapid.IntRange(2, 4).Draw(rt, "threads")
-		var scripts [][]stOp
+		for i, n := 0, rapid.IntRange(1, 3).Draw(rt, "lazy_specs"); i < n; i++ {
+			sc.Lazy = append(sc.Lazy, stLazySpec{
+				FailFirst:    rapid.IntRange(0, 2).Draw(rt, "fail_first"),
+				Files:        rapid.IntRange(0, 3).Draw(rt, "lazy_files"),
+				Subdirs:      rapid.IntRange(0, 2).Draw(rt, "lazy_subdirs"),
+				SubFailFirst: rapid.IntRange(0, 1).Draw(rt, "sub_fail_first"),
+			})
+		}
+		for i, n := 0, rapid.IntRange(0, 3).Draw(rt, "seeded"); i < n; i++ {
+			sc.Seeded = append(sc.Seeded, stOp{Kind: "seedLazy", Dir: rapid.IntRange(0, 3).Draw(rt, "seed_dir"), Name: rapid.SampledFrom(stNames).Draw(rt, "seed_name"), Nam2: "x", Fixed: 1})
+		}
 		excluded := 0
 		for i := 0; i < nThreads; i++ {
 			ops, ex := stSanitise(drawStOps(rt, rapid.IntRange(10, 40).Draw(rt, "n"), 4))
-			scripts = append(scripts, ops)
+			sc.Scripts = append(sc.Scripts, ops)
 			excluded += ex
 		}
 		for i := 0; i < excluded; i++ {
 			rec.Exclude("rename that could move a directory into its own subtree")
 		}
-		tree := newStTree(handles)
+		scripts := sc.Scripts
+		tree := newStTree(sc.Handles)
+		tree.lazy = sc.Lazy
+		for _, o := range sc.Seeded {
+			tree.apply(ctx, o)
+		}
 		var wg sync.WaitGroup
 		done := make(chan struct{})
 		panics := make(chan string, nThreads)
 		start := make(chan struct{})
-		for _, ops := range scripts {
-			ops := ops
+		progress := make([]atomic.Int64, nThreads)
+		for ti, ops := range scripts {
+			ti, ops := ti, ops
 			wg.Add(1)
 			go func() {
 				defer wg.Done()
@@ -325,52 +622,78 @@ func TestC14DirectoryConcurrentStress(t *testing.T) {
 				<-start
 				for _, o := range ops {
 					tree.apply(ctx, o)
+					progress[ti].Add(1)
 				}
 			}()
+		}
+		snapshot := func() string {
+			var b strings.Builder
+			for i := range progress {
+				fmt.Fprintf(&b, "%d/%d ", progress[i].Load(), len(scripts[i]))
+			}
+			return b.String()
 		}
 		close(start)
 		go func() { wg.Wait(); close(done) }()
 		select {
 		case <-done:
 		case <-time.After(60 * time.Second):
-			d1 := allGoroutineStacks()
+			p1, d1 := snapshot(), allGoroutineStacks()
 			time.Sleep(2 * time.Second)
-			d2 := allGoroutineStacks()
-			stuck := strings.Count(d1, "sync.(*Mutex).Lock") > 0 && strings.Count(d1, "in_memory_prepopulated_directory.go") > 0 &&
-				strings.Count(d1, "sync.(*Mutex).Lock") == strings.Count(d2, "sync.(*Mutex).Lock")
-			if stuck {
-				fmt.Fprintf(os.Stderr, "C14 confirmed deadlock; goroutine dump:\n%s\n", d2)
-				rt.Fatalf("C14: concurrent calls deadlocked (goroutines parked in sync.(*Mutex).Lock in two dumps 2 s apart); scripts=%+v", scripts)
+			p2, d2 := snapshot(), allGoroutineStacks()
+			parked1, other1 := stWorkerStates(d1)
+			parked2, other2 := stWorkerStates(d2)
+			if p1 == p2 && parked1 > 0 && parked1 == parked2 && other1 == 0 && other2 == 0 {
+				// The stuck goroutines cannot be cancelled and the schedule
+				// cannot be replayed, so shrinking would only repeat the
+				// 60 s wait: report and stop this shard at once.
+				fmt.Printf("C14: concurrent calls deadlocked or wait for a lock that an earlier call left behind (no operation completed between two dumps 2 s apart and all %d unfinished threads are parked in sync.(*Mutex).Lock / sync.(*RWMutex)); operations completed per thread: %s; case=%+v\ngoroutine dump:\n%s\n", parked2, p2, sc, d2)
+				fmt.Println("VERIF-VIOLATION: C14 confirmed deadlock (or leaked lock) in the concurrent stress")
+				os.Exit(1)
 			}
-			fmt.Println("VERIF-INCONCLUSIVE: stress batch did not finish in 60 s without a confirmed mutex cycle")
+			// Threads that are runnable (spinning in LockPile's back-off,
+			// say) may still get through: without owning the schedule the
+			// harness cannot show that no progress is possible.
+			fmt.Printf("VERIF-INCONCLUSIVE: stress batch did not finish in 60 s without a confirmed mutex cycle (possible livelock or overloaded machine): operations completed per thread %s then %s; threads parked on a lock %d then %d, otherwise busy %d then %d\n", p1, p2, parked1, parked2, other1, other2)
 			os.Exit(3)
 		}
 		select {
 		case p := <-panics:
-			rt.Fatalf("C14: panic during concurrent calls: %s; scripts=%+v", p, scripts)
+			rt.Fatalf("C14: panic during concurrent calls: %s; case=%+v", p, sc)
 		default:
 		}
 		for i, d := range tree.dirs {
 			if free, known := virtual.VerifLockIsFree(d); known && !free {
-				rt.Fatalf("C14: lock of directory #%d is still held after all concurrent calls returned; scripts=%+v", i, scripts)
+				rt.Fatalf("C14: lock of directory #%d is still held after all concurrent calls returned; case=%+v", i, sc)
 			}
 		}
 		if tree.nfs != nil && !tree.nfs.VerifNFSHandlePoolLockIsFree() {
-			rt.Fatalf("C14: the NFS handle pool lock is still held after all concurrent calls returned; scripts=%+v", scripts)
+			rt.Fatalf("C14: the NFS handle pool lock is still held after all concurrent calls returned; case=%+v", sc)
 		}
-		// The tree must still be listable and the two listing APIs agree.
+		for i, l := range tree.leaves {
+			if free, known := virtual.VerifLeafLockIsFree(l); known && !free {
+				rt.Fatalf("C14: lock of pool-backed file #%d is still held after all concurrent calls returned; case=%+v", i, sc)
+			}
+		}
+		// The tree must still be listable and the two listing APIs agree;
+		// every directory that can be reached has a free lock.
 		var walk func(d virtual.PrepopulatedDirectory, depth int)
 		walk = func(d virtual.PrepopulatedDirectory, depth int) {
+			if free, known := virtual.VerifLockIsFree(d); known && !free {
+				rt.Fatalf("C14: lock of a directory at depth %d is still held after all concurrent calls returned; case=%+v", depth, sc)
+			}
 			dirs, leaves, err := d.LookupAllChildren()
 			if err != nil {
-				if err == syscall.ENOENT {
+				if err == syscall.ENOENT || err == errStFetch {
+					// errStFetch: a lazy directory whose fetcher still
+					// has failures to deliver.
 					return
 				}
-				rt.Fatalf("C14: LookupAllChildren fails after the batch: %v; scripts=%+v", err, scripts)
+				rt.Fatalf("C14: LookupAllChildren fails after the batch: %v; case=%+v", err, sc)
 			}
 			infos, err := d.ReadDir()
 			if err != nil {
-				rt.Fatalf("C14: ReadDir fails after the batch: %v; scripts=%+v", err, scripts)
+				rt.Fatalf("C14: ReadDir fails after the batch: %v; case=%+v", err, sc)
 			}
 			var a, b []string
 			for _, e := range dirs {
@@ -378,6 +701,9 @@ func TestC14DirectoryConcurrentStress(t *testing.T) {
 			}
 			for _, e := range leaves {
 				a = append(a, e.Name.String())
+				if free, known := virtual.VerifLeafLockIsFree(e.Child); known && !free {
+					rt.Fatalf("C14: lock of file %q at depth %d is still held after all concurrent calls returned; case=%+v", e.Name.String(), depth, sc)
+				}
 			}
 			for _, i := range infos {
 				n := i.Name().String()
@@ -389,20 +715,22 @@ func TestC14DirectoryConcurrentStress(t *testing.T) {
 			sort.Strings(a)
 			sort.Strings(b)
 			if !bytes.Equal([]byte(strings.Join(a, ",")), []byte(strings.Join(b, ","))) {
-				rt.Fatalf("C14: after the batch LookupAllChildren lists %v but ReadDir lists %v; scripts=%+v", a, b, scripts)
+				rt.Fatalf("C14: after the batch LookupAllChildren lists %v but ReadDir lists %v; case=%+v", a, b, sc)
 			}
-			if depth < 6 {
+			if depth < 8 {
 				for _, e := range dirs {
 					walk(e.Child, depth+1)
 				}
 			}
 		}
 		walk(tree.root, 0)
-		// Classification.
+		// Classification (from the scripts, hence the same on every run).
 		opposite := false
 		type pair struct{ a, b int }
 		seen := map[pair]int{}
 		removal := false
+		movers := map[int]bool{}
+		lazyOps := false
 		for ti, ops := range scripts {
 			for _, o := range ops {
 				if o.Kind == "rename" && o.Dir != o.Dir2 {
@@ -414,15 +742,37 @@ func TestC14DirectoryConcurrentStress(t *testing.T) {
 				if o.Kind == "removeAllChildren" || o.Kind == "removeAll" || (o.Kind == "remove" && o.Name == "sub") {
 					removal = true
 				}
+				if o.Kind == "moveFixed" {
+					movers[ti] = true
+				}
+				if o.Kind == "seedLazy" || o.Kind == "subList" || o.Kind == "removeLazy" {
+					lazyOps = true
+				}
 			}
 		}
-		labels := []string{"handles_" + handles}
+		labels := []string{"handles_" + sc.Handles}
 		if opposite {
 			labels = append(labels, "opposite_renames")
 		}
 		if removal {
 			labels = append(labels, "bulk_or_directory_removal")
 		}
-		rec.Case(scripts, opposite || removal, labels...)
+		if len(movers) >= 2 {
+			labels = append(labels, "fixed_directories_moved_by_2plus_threads")
+		}
+		if lazyOps || len(sc.Seeded) > 0 {
+			labels = append(labels, "lazy_directories_in_play")
+		}
+		// What actually happened (schedule dependent, labels only).
+		for _, k := range vdSortedKeys(tree.stats) {
+			if strings.HasPrefix(k, "excluded:") {
+				for i := 0; i < tree.stats[k]; i++ {
+					rec.Exclude(strings.TrimPrefix(k, "excluded:"))
+				}
+				continue
+			}
+			rec.LabelN("happened:"+k, tree.stats[k])
+		}
+		rec.Case(sc, opposite || removal || len(movers) >= 2, labels...)
 	})
 }
